@@ -38,6 +38,34 @@ CHECKS = {
    "TLA+ models of the shared state (BufPool with havoc-on-Put, logger Registry get-or-create, BytePool reuse) checked exhaustively by TLC over all interleavings; on the real code the havoc is made real by a poison-on-Put hook, pipelines run sequentially, under gated seeded schedules on one P and free-running under the race detector, and every outcome is judged by TLC against the SharedContract monitor",
    "TLC: 3 pipelines x 2-3 buffers all interleavings (44k-650k states), registry and byte pool models (3.3M states thorough); real code: ~600 sequential poisoned scenarios, 400 (10k) gated multi-pipeline schedules, 250 (6k) free-running waves, 5k (60k) concurrent NewLogger rounds, byte-pool sequences, all compared with each operation's own sequential result; race reports become rejected traces",
    "trusted: TLC, Go race detector, the poison hook (build tag verif); sync.Pool per-P behaviour is a runtime fact, which is why the poison hook (deterministic) carries the verdict for pooled-buffer aliasing", "DESIGN.md#c08"),
+ "C10": ("model_checking",
+   "implementation-shaped TLA+ model of the Batcher (lock held across blocking sends, forwarders, departure channel, Close after queue.Close) checked exhaustively by TLC incl. liveness of Close with a departing stalled subscriber; real Batcher (fake clock) driven by a gated scheduler, observable traces judged by TLC against the BatchContract monitor",
+   "TLC explores all interleavings of 2 subscribers (one stalled and eventually leaving) x deliveries x Close for buffer capacity 1-2; the real code runs ~700 (quick) to tens of thousands (thorough) controlled schedules: last value per key once one interval after its call, suppressed values never delivered, not early, one common order, departures with >50 outstanding never wedge delivery/Batch/Close, channels closed when Close returns",
+   "trusted: TLC; quiescence detection by goroutine wait states; k8s FakeClock; the Processor is abstracted to its contract in the model (C06 discharges it) but is the real one in the executions", "DESIGN.md#c10"),
+ "C12": ("model_checking",
+   "implementation-shaped TLA+ model of RunnerManager/RunnerCloserManager (CloserMgr) checked exhaustively by TLC against the MgrContract monitor over runner/closer behaviours x completion orders x Close placements x grace modes; the real managers run with harness-owned runners/closers inside testing/synctest so completion orders are enumerated and the grace timer is exact; every trace judged by TLC against the monitor",
+   "133k (quick) to 12M (thorough) model states; 11.8k (quick) to 175k (thorough) real scenarios: every result assignment x release order for up to 3-4 runners and closers, 10 Close placements, 5 grace modes, 7 AddCloser modes incl. the gated race, second Run, Add after Run",
+   "trusted: TLC, testing/synctest virtual time, the addcloser.afterCheck gate (build tag verif)", "DESIGN.md#c12"),
+ "C14": ("model_checking",
+   "sequential TLA+ objects (SeqMap, AtomicMap, SeqSlice) with a generic linearization trace spec: TLC searches for a linearization of every recorded concurrent history; implementation-shaped lock model (CMapImpl) checked exhaustively; Ring.tla/BufRing.tla: TLC enumerates the full transition graph / operation strings and the real rings are replayed against it (three-way agreement with container/ring)",
+   "6.6k (quick) to 54k (thorough) concurrent histories (lockstep barrier to force overlap), 75k to 17M model states, every ring transition for N<=5 (6) cells incl. zero-value rings, every AppendBack/RemoveFront string up to length 9 (12) for all 49 (initial,buffer) size pairs in -1..5",
+   "trusted: TLC; call/return order recorded under one mutex; Unlink(n) with n%Len=0 is left to kit-vs-container/ring agreement (documentation ambiguous)", "DESIGN.md#c14"),
+ "C04": ("model_checking",
+   "declarative TLA+ semantics of the cron grammar and of Next (field sets, either-day rule, calendar, time zones as data exported from tzdata) - not the implementation's algorithm; TLC checks the per-interval oracle against the brute-force definition, enumerates the single-term grammar (replayed on the real parser) and judges every recorded Parse/Next call of the real code",
+   "80k (quick) to 380k (thorough) enumerated terms replayed on the real parser; ~6k (quick) to ~143k (thorough) Next calls over 22 zones with start instants around every transition 2010-2035, TZ prefixes, foreign-zone instants, time.Local reassigned; each judged by TLC for minimality/zero-time/@every",
+   "trusted: TLC, Go's tzdata and time.ZoneBounds; known findings: 11 per-zone keys for zones whose transitions are not whole hours on the hour / at local midnight / skip a day (see known-findings.txt) - those zones are exempt, all others fully checked", "DESIGN.md#c04"),
+ "C03": ("exploration",
+   "TLA+ transcription of the documented algorithm table (CryptoDispatch: 19+5+10 names, key/nonce/tag sizes, padding, AAD binding) with Allowed(case) = admissible outcome classes; TLC enumerates the case space and validates the recorded outcome of every real call; byte-level facts by round trip and agreement with independent references (stdlib, own RFC 3394 / RFC 7518 code seeded with the RFC vectors)",
+   "14.6k cases / 45k real calls (quick) to 34k cases / 475k calls (thorough): every algorithm x key size x nonce/tag length x message length class x every single-byte mutation of every component; TLC also checks the recorded runs are exactly the spec's case space",
+   "TLC decides which outcome class is admissible; the bytes are judged by Go against independent references (trusted base: Go stdlib, x/crypto, ~300 lines of reference code checked against RFC vectors)", "DESIGN.md#c03"),
+ "C17": ("exploration",
+   "TLA+ ownership table (MemDispatch: MayWrite per exported function) and configuration space enumerated by TLC; every configuration executed on the real functions with all arguments cut from one canary arena (spare capacity 0..64 per argument); TLC checks written is a subset of MayWrite for every recorded call and completeness of the run",
+   "33.7k (quick) to 145k (thorough) calls: 16 functions x algorithms x spare-capacity vectors x lengths around block boundaries x success and each failure path; whole arena compared bit for bit",
+   "TLC contributes the configuration space and the MayWrite table; the observation (canaries) is plain Go", "DESIGN.md#c17"),
+ "C07": ("exploration",
+   "TLA+ shape grammar per entry point (InputShapes: 37 families) enumerated by TLC and rendered to bytes/values by Go; every shape fed to the real entry point in a child process under recover and a watchdog; outcomes judged by TLC against the ShapesContract monitor (ok or error, except named misuse)",
+   "86k shapes / 131k real calls (quick) to 900k shapes / 1.16M calls (thorough) over ~40 entry points; hangs confirmed by a second 25 s run; fatal crashes attributed through an mmap'd in-flight record",
+   "a structured shape space, not arbitrary byte strings (coverage-guided fuzzing is a different technique and not used); documented misuse panics excluded by name in the spec", "DESIGN.md#c07"),
 }
 
 def hook_commits():
